@@ -99,7 +99,34 @@ def refusal_matrix():
         {'a': 'delete_block', 'n': 'nope'}, {'a': 'remove_block', 'n': 'nope'},
     ]
     after = [{'a': 'copy'}, {'a': 'add_gate', 'l': 'w', 't': 'OR', 'ops': ['a', 'c']}, {'a': 'rename_gate', 'old': 'b', 'new': 'bb'}, {'a': 'into_bench'}]
-    return [{'k': 'hist', 'init': init, 'acts': [call] + after, 'from': 'refusals'} for call in calls]
+    out = [{'k': 'hist', 'init': init, 'acts': [call] + after, 'from': 'refusals'} for call in calls]
+    # names the library generates are labels like any other: '<block>@<gate>' may already be taken - by a gate the user named
+    # so, or by what an earlier connection under the same block name left behind after its block was dissolved
+    other = {'g': {'s': {'t': 'INPUT', 'o': []}, 't': {'t': 'INPUT', 'o': []}, 'sum': {'t': 'XOR', 'o': ['s', 't']}, 'car': {'t': 'AND', 'o': ['s', 't']}},
+             'ord': ['s', 't', 'sum', 'car'], 'i': ['s', 't'], 'o': ['sum', 'car'], 'b': {}}
+    host = {'g': {'p': {'t': 'INPUT', 'o': []}, 'q': {'t': 'INPUT', 'o': []}, 'acc@sum': {'t': 'OR', 'o': ['p', 'q']}, 'm': {'t': 'NOT', 'o': ['acc@sum']}},
+            'ord': ['p', 'q', 'acc@sum', 'm'], 'i': ['p', 'q'], 'o': ['m', 'acc@sum'], 'b': {}}
+    conn = lambda name, tc, oc, right=False: {'a': 'connect', 'other': other, 'tc': tc, 'oc': oc, 'right': right, 'name': name, 'pfx': True, 'via': 'connect_circuit'}
+    tail = [{'a': 'copy'}, {'a': 'add_gate', 'l': 'w', 't': 'OR', 'ops': ['p', 'q']}, {'a': 'into_bench'}]
+    out.append({'k': 'hist', 'init': host, 'acts': [conn('acc', ['p'], ['s'])] + tail, 'from': 'refusals'})
+    out.append({'k': 'hist', 'init': host, 'acts': [conn('acc', ['m'], ['t'])] + tail, 'from': 'refusals'})
+    plain = {'g': {'p': {'t': 'INPUT', 'o': []}, 'q': {'t': 'INPUT', 'o': []}, 'm': {'t': 'NAND', 'o': ['p', 'q']}}, 'ord': ['p', 'q', 'm'], 'i': ['p', 'q'], 'o': ['m'], 'b': {}}
+    for victim in ('B@car', 'B@sum'):
+        out.append({'k': 'hist', 'init': plain, 'from': 'refusals',
+                    'acts': [conn('B', ['p', 'q'], ['s', 't']), {'a': 'set_outputs', 'q': ['m']}, {'a': 'remove_gate', 'l': victim},
+                             conn('B', ['p', 'm'], ['s', 't'])] + tail})
+    # a block of more than a hundred gates that contains a circuit input, removed as a whole
+    big = {'g': {'x': {'t': 'INPUT', 'o': []}, 'y': {'t': 'INPUT', 'o': []}, 'z': {'t': 'INPUT', 'o': []}}, 'ord': ['x', 'y', 'z'], 'i': ['x', 'y', 'z'], 'o': ['z'], 'b': {}}
+    prev = 'x'
+    for k in range(120):
+        big['g'][f'c{k}'] = {'t': 'XOR' if k % 2 else 'AND', 'o': [prev, 'y']}
+        big['ord'].append(f'c{k}')
+        prev = f'c{k}'
+    for members in (['y', 'x'] + [f'c{k}' for k in range(120)], [f'c{k}' for k in range(40, 120)], ['x', 'y'] + [f'c{k}' for k in range(8)]):
+        out.append({'k': 'hist', 'init': big, 'from': 'refusals',
+                    'acts': [{'a': 'make_block', 'n': 'bulk', 'gs': members, 'outs': []}, {'a': 'remove_block', 'n': 'bulk'}, {'a': 'copy'},
+                             {'a': 'add_gate', 'l': 'w', 't': 'NOT', 'ops': ['z']}]})
+    return out
 
 
 def harvest(tier):
